@@ -222,9 +222,12 @@ func (e *DocumentError) pointerToTheErrorCharacter() string {
 
 	content := e.file.Content()
 	begin := e.lineBeginning()
-	spaces := content[begin:].CountSpacesFromLeft()
+	spaces := content[begin:e.lineEnd()].CountSpacesFromLeft()
 
 	i := int(e.index) - int(begin) - spaces
+	if i < 0 {
+		i = 0 // the position lies inside the trimmed leading blanks
+	}
 	return strings.Repeat("-", i) + "^"
 }
 
